@@ -3,8 +3,8 @@
 set -u
 S=$(cd "$1" && pwd); P=$2; shift 2
 if [ -n "$(git -C /repo status --porcelain)" ]; then echo "/repo not clean"; exit 2; fi
-git -C /repo apply "$S/patch.diff" || exit 2
+git -C /repo apply "$S/patch.diff" 2>/dev/null || git -C /repo apply -C1 "$S/patch.diff" 2>/dev/null || git -C /repo apply -3 "$S/patch.diff" || { git -C /repo checkout -- . ; git -C /repo reset -q; exit 2; }
 /verif/bin/vcheck $P --no-evidence "$@"; rc=$?
-git -C /repo checkout -- . 
+git -C /repo reset -q; git -C /repo checkout -- . 
 echo "try_seed: $P on $(basename $S): exit=$rc"
 exit $rc
